@@ -35,7 +35,7 @@ let parse_adm_tok e =
     else if n >= 2 && e.[0] = 'B' then
       (let h = int_of_string (String.sub e 1 (n - 1)) in if h >= 0 && h < 300 then TBan h else TBad)
     else if n >= 2 && e.[0] = 'T' then
-      (let k = int_of_string (String.sub e 1 (n - 1)) in if k >= 0 && k <= 1000000 then TTick k else TBad)
+      (let k = int_of_string (String.sub e 1 (n - 1)) in if k >= 0 && k <= 1000000000 then TTick k else TBad)
     else TBad
   with _ -> TBad
 
@@ -249,6 +249,75 @@ let cm_spec head toks obs =
       !res
     with Failure m -> "FAIL malformed-observable " ^ m
 
+(* ------------------------------------------------------------------ server wired to the connection manager
+   The wired cases are read through the ConnMgr script layer: a connection that dies during or after the
+   handshake is a successful dial followed by the Disconnect the server owes the manager; the number of
+   connected peers the server reports equals the number of established connections. *)
+let wr_digest (s : ConnMgr.cst) =
+  Printf.sprintf "o%d/w%d/c%d/n%d" (sl s.ConnMgr.conns) (iz (ConnMgr.n_wait s)) (sl s.ConnMgr.conns) (iz s.ConnMgr.dials)
+
+let wr_model head toks =
+  let t = head_int head "t" 0 and mf = head_int head "mf" 0 in
+  if t < 1 || t > 8 then "BAD-INPUT" else begin
+    let x = ref (ConnMgr.sinit (zi t) (zi mf) true) in
+    let seq = ref 0 in
+    let out = ref [ "s:" ^ wr_digest (ConnMgr.core !x) ] in
+    let app ev = let (x', ok) = ConnMgr.sstep !x ev in x := x'; ok in
+    Stdlib.List.iter (fun e ->
+        let dial ok_dial dies =
+          let a = zi (!seq + 1) in
+          if app (ConnMgr.SG a) then begin
+            incr seq;
+            if ok_dial then begin
+              ignore (app (ConnMgr.SK a));
+              if dies then ignore (app (ConnMgr.SD (zi (sl (ConnMgr.core !x).ConnMgr.conns - 1))))
+            end else ignore (app (ConnMgr.SF a));
+            true
+          end else false in
+        let tag =
+          if e = "N0" || e = "N1" || e = "N3" then (if dial true true then "N" else "-")
+          else if e = "N2" then (if dial true false then "N" else "-")
+          else if e = "F" then (if dial false false then "F" else "-")
+          else if String.length e >= 2 && e.[0] = 'X' then
+            (match (try Some (strict_int (String.sub e 1 (String.length e - 1))) with _ -> None) with
+             | Some k when k >= 0 -> if app (ConnMgr.SD (zi k)) then "X" else "-"
+             | _ -> "?")
+          else "?" in
+        out := (tag ^ ":" ^ wr_digest (ConnMgr.core !x)) :: !out) toks;
+    out := ("e:" ^ wr_digest (ConnMgr.core !x)) :: !out;
+    join " " (Stdlib.List.rev !out)
+  end
+
+(* oracle: the manager returns to TargetOutbound live connections and keeps dialling - at every
+   quiescent point open connections + requests waiting for an address = target, never above it *)
+let wr_spec head toks obs =
+  let t = head_int head "t" 0 in
+  let ws = words obs in
+  if sl ws <> sl toks + 2 then
+    (if sl ws >= 1 && Stdlib.List.hd ws = "LIMITS" then "FAIL case-limits-differ the case names another threshold than the compiled one"
+     else "FAIL malformed-observable word count")
+  else
+    try
+      let res = ref "OK" in
+      Stdlib.List.iteri (fun idx w ->
+          if !res = "OK" then
+            match Stdlib.String.index_opt w ':' with
+            | None -> failwith "word"
+            | Some i ->
+              let tag = String.sub w 0 i and d = String.sub w (i + 1) (String.length w - i - 1) in
+              (match split_on '/' d with
+               | [o; wq; c; n] ->
+                 let num s = strict_int (String.sub s 1 (String.length s - 1)) in
+                 (match int_of_nat (ConnMgr.cm_check (zi t) (zi (num o)) (zi (num wq)) (zi 0) (zi 0)) with
+                  | 0 -> if tag = "!" then res := Printf.sprintf "FAIL reaction-missing step %d: no reaction within the bound (%s)" idx d
+                    else if num c > num o then res := Printf.sprintf "FAIL connected-above-open step %d: %s" idx d
+                  | 1 -> res := Printf.sprintf "FAIL above-target step %d: %s" idx d
+                  | 4 -> res := Printf.sprintf "FAIL too-many-requests step %d: %s" idx d
+                  | _ -> res := Printf.sprintf "FAIL outbound-slot-not-replaced step %d: %s (target %d): a closed or failed outbound connection was not replaced" idx d t)
+               | _ -> failwith "digest")) ws;
+      !res
+    with Failure m -> "FAIL malformed-observable " ^ m
+
 (* ------------------------------------------------------------------ *)
 let split_case input =
   match split_on ';' input with
@@ -259,12 +328,14 @@ let model input =
   match split_case input with
   | ("adm" :: _ as head), toks -> adm_model head toks
   | ("cm" :: _ as head), toks -> cm_model head toks
+  | ("wr" :: _ as head), toks -> wr_model head toks
   | _ -> "BAD-INPUT"
 
 let spec input obs =
   match split_case input with
   | ("adm" :: _ as head), toks -> adm_spec head toks obs
   | ("cm" :: _ as head), toks -> cm_spec head toks obs
+  | ("wr" :: _ as head), toks -> wr_spec head toks obs
   | _ -> if obs = "BAD-INPUT" then "OK" else "FAIL malformed-observable"
 
 let () = run_driver model spec
